@@ -7,9 +7,10 @@ CONSTANTS
   MaxLoss = 40
   MaxNegLoss = 12
   MaxRestarts = 1
+  MaxSlow = 1
   PeerModes <- ModesAll
   DenyReplies <- DenyMany
-  AckTails <- TailsBoth
+  AckTails <- TailsAll
   Bug = "none"
 INVARIANT PropertyHolds
 CHECK_DEADLOCK FALSE
